@@ -275,8 +275,14 @@ Definition init_settled : st := run init_labels init.
 (* observed message: producer, tag, kind, key *)
 Definition omsg := (N * N * N * option str)%type.
 Definition omsg_of (m : msg) : omsg := (m_prod m, e_tag (m_ev m), e_kind (m_ev m), m_key m).
-(* per operation: result code, batches that reached the write function, Close returned *)
-Definition opobs := (N * list (list omsg) * bool)%type.
+(* per operation: result code; batches that reached the write function (as decoded when the write
+   function was entered); Close returned; batches whose write function returned during this
+   operation (the very same slice decoded again at return: what the broker really saw) *)
+Definition opobs := (N * list (list omsg) * bool * list (list omsg))%type.
+Definition o_res (o : opobs) : N := fst (fst (fst o)).
+Definition o_batches (o : opobs) : list (list omsg) := snd (fst (fst o)).
+Definition o_closed (o : opobs) : bool := snd (fst o).
+Definition o_left (o : opobs) : list (list omsg) := snd o.
 
 Definition is_returned (s : st) : bool := match cp s with CReturned => true | _ => false end.
 
@@ -299,7 +305,11 @@ Definition op_res (o : op) (s : st) : N :=
 Definition obs_of (o : op) (s s' : st) : opobs :=
   (op_res o s,
    map (map omsg_of) (skipn (length (delivered s)) (delivered s')),
-   is_returned s' && negb (is_returned s)).
+   is_returned s' && negb (is_returned s),
+   match o with
+   | ORelease => if in_write s then [map omsg_of (last (delivered s) [])] else []
+   | _ => []
+   end).
 
 Fixpoint coarse_obs (ops : list op) (s : st) : list opobs :=
   match ops with
@@ -317,8 +327,9 @@ Definition omsg_eqb (a b : omsg) : bool :=
   end.
 Definition opobs_eqb (a b : opobs) : bool :=
   match a, b with
-  | (r, bs, c), (r', bs', c') =>
-    (r =? r') && list_eqb (list_eqb omsg_eqb) bs bs' && Bool.eqb c c'
+  | (r, bs, c, l), (r', bs', c', l') =>
+    (r =? r') && list_eqb (list_eqb omsg_eqb) bs bs' && Bool.eqb c c' &&
+    list_eqb (list_eqb omsg_eqb) l l'
   end.
 
 (* ---------- cases written by the harness ---------- *)
@@ -350,9 +361,13 @@ Fixpoint before_close (ops : list op) : list op :=
   | o :: r => if is_close o then [] else o :: before_close r
   end.
 
-Definition all_batches (obs : list opobs) : list (list omsg) :=
-  flat_map (fun o => snd (fst o)) obs.
-Definition close_returned (obs : list opobs) : bool := existsb (fun o => snd o) obs.
+Definition all_batches (obs : list opobs) : list (list omsg) := flat_map o_batches obs.
+Definition all_left (obs : list opobs) : list (list omsg) := flat_map o_left obs.
+Definition close_returned (obs : list opobs) : bool := existsb o_closed obs.
+(* what the broker saw: the content at return of the write function where it has returned,
+   the content at entry for a batch still inside the write function *)
+Definition seen_batches (obs : list opobs) : list (list omsg) :=
+  all_left obs ++ skipn (length (all_left obs)) (all_batches obs).
 
 Definition same_id (p t : N) (m : omsg) : bool :=
   match m with (p', t', _, _) => (p =? p') && (t =? t') end.
@@ -405,14 +420,18 @@ Definition delivered_keys (flat : list omsg) (pubs : list (N * event)) : list (e
                       end) pubs.
 
 Definition mon_sched (ops : list op) (obs : list opobs) : N :=
-  let batches := all_batches obs in
+  let batches := seen_batches obs in
   let flat := concat batches in
   let pubs := flat_map pubs_of ops in
   let early := flat_map pubs_of (before_close ops) in
   let dkeys := delivered_keys flat pubs in
   let scoped := filter (fun a => env_scoped_kind (e_kind (fst a))) dkeys in
+  (* 9: a batch changed while the write function was working on it (its content at return differs
+        from its content at entry) *)
+  if negb (list_eqb (list_eqb omsg_eqb)
+                    (firstn (length (all_left obs)) (all_batches obs)) (all_left obs)) then 9
   (* 4: shutdown completed, but an event accepted before Close was called never reached the broker *)
-  if close_returned obs &&
+  else if close_returned obs &&
           negb (forallb (fun pe => negb (is_event_kind (e_kind (snd pe))) ||
                                    existsb (fun m => same_pub m pe) flat) early) then 4
   (* 1: something reached the broker twice, or was never published, or is not what was published *)
@@ -429,9 +448,9 @@ Definition mon_sched (ops : list op) (obs : list opobs) : N :=
   (* 6: a key is not the documented one *)
   else if negb (forallb (fun a => option_eqb str_eqb (snd a) (documented_key (fst a))) dkeys) then 6
   (* 7: a producer was kept waiting while the broker did not answer *)
-  else if existsb (fun o => fst (fst o) =? 3) obs then 7
+  else if existsb (fun o => o_res o =? 3) obs then 7
   (* 8: an operation did not settle although the model says it does (result code 9) *)
-  else if existsb (fun o => fst (fst o) =? 9) obs then 8
+  else if existsb (fun o => o_res o =? 9) obs then 8
   else 0.
 
 Definition mon19 (c : c19_case) : N :=
